@@ -47,12 +47,14 @@ def make_fn(nnx, mods, vts, script, ret=None):
       key = mod_keys(obj)[op['slot'] - 1] if op['slot'] else None
       if o == 'setval':
         obj.value = obj.value + 1
+      elif o == 'setmeta':
+        obj.tag = 'm0' if obj.get_metadata().get('tag') == 'm1' else 'm1'
       elif o == 'setstatic':
         setattr(obj, key, 'static-value')
       elif o == 'addmod':
         setattr(obj, key, mods['B']())
       elif o == 'addvar':
-        setattr(obj, key, vts['P'](jnp.asarray(5, jnp.int32)))
+        setattr(obj, key, vts['P'](jnp.asarray(5, jnp.int32), **({'tag': 'm0'} if any(p['o'] == 'setmeta' for p in script) else {})))
       elif o == 'delattr':
         delattr(obj, key)
       elif o == 'rebind':
@@ -175,7 +177,8 @@ def _replay(chk, beh, idx, nnx, mods, vts):
   sig = ';'.join(f"{o['k']}{o['s'][0]},{o['s'][1]}" for o in heap0) + '|args=' + ','.join(map(str, beh['args'])) + '|' + kind + \
       (f'x{trip}' if kind in ('while', 'fori') else '') + '|' + '>'.join(op['o'] + ''.join(map(str, op['path'])) + (f".{op['slot']}" if op['slot'] else '') for op in script)
   key = 'C04:' + sig
-  root, objs = c03.build_real(heap0, nnx, mods, vts, reverse_dicts=(idx % 2 == 1))
+  has_setmeta = any(op['o'] == 'setmeta' for op in script)
+  root, objs = c03.build_real(heap0, nnx, mods, vts, reverse_dicts=(idx % 2 == 1), explicit_tag=has_setmeta)
   ret = beh.get('ret') or {'arg': 0}
   args = [objs[a] for a in beh['args']]
   fn = make_fn(nnx, mods, vts, script, ret)
